@@ -99,6 +99,13 @@ func thoroughExtras(root string, p *PropDef, o runOpts) map[string]any {
 	fmt.Printf("   commute invariance (operands of integer + * | & ^ exchanged wherever neither contains a call): %s\n", com)
 	inv := variantInvariance(exe, root, o.repo, p.ID, func(src, dst string) (int, error) { return invertIfElse(src, dst) }, "if/else statements inverted")
 	fmt.Printf("   invert invariance (if c {A} else {B} written if !c {B} else {A}): %s\n", inv)
+	regSummary, regResults := fixRegression(exe, root, o.repo, p.ID)
+	fmt.Printf("   regression self-test (the tree before each recorded repair, from /repo's history): %s\n", regSummary)
+	for _, rr := range regResults {
+		if rr.Outcome != "redetected" {
+			fmt.Printf("     %s: %s~1 (rules named: %s) %s\n", rr.Outcome, rr.Commit, rr.Rules, rr.Reported)
+		}
+	}
 	fmt.Printf("   mutant self-test: %d patches: %d killed, %d missed, %d skipped; behaviour-preserving variants: %d silent, %d false alarms (not part of the verdict)\n", len(patches), killed, missed, skipped, silent, falseAlarm)
 	for _, r := range results {
 		if r.Outcome != "killed" && r.Outcome != "silent" {
@@ -106,7 +113,7 @@ func thoroughExtras(root string, p *PropDef, o runOpts) map[string]any {
 		}
 	}
 	return map[string]any{"mutants_run": len(patches), "mutants_killed": killed, "mutants_missed": missed, "mutants_skipped": skipped,
-		"benign_variants_silent": silent, "benign_variants_false_alarm": falseAlarm, "mutants": results, "rename_invariance": ren, "mirror_invariance": mir, "commute_invariance": com, "invert_invariance": inv}
+		"benign_variants_silent": silent, "benign_variants_false_alarm": falseAlarm, "mutants": results, "rename_invariance": ren, "mirror_invariance": mir, "commute_invariance": com, "invert_invariance": inv, "fix_regression": regSummary, "fix_regression_results": regResults}
 }
 
 func runMutant(exe, root, repo, prop, patch string) mutantResult {
